@@ -107,7 +107,12 @@ pub fn compile<TCompilationProfile: CompilationProfile>(
     );
 
     let total_artifacts_written = apply_file_system_operations(&file_system_operations, &artifacts)
-        .map_err(Diagnostic::from)?;
+        .map_err(|e| {
+            // The directory no longer matches the recorded state: forget it, so that the next
+            // compile recreates every artifact.
+            state.file_system_state = None;
+            Diagnostic::from(e)
+        })?;
 
     CompilationStats {
         client_field_count: stats.client_field_count,
